@@ -1028,8 +1028,13 @@ class Interp:
         if a is None or b is None:
             raise PyRaise(SExc(TypeError, ("unsupported operand type(s) for NoneType",)))
         if isinstance(a, SOpaque) or isinstance(b, SOpaque):
-            # an operator applied to an opaque individual: the protocol of its kind models it (or Unsupported)
-            return self.task.opaque_binop(self, st, op, a, b)
+            # an operator applied to an opaque individual: the protocol of its kind models it, if it has a model
+            # (otherwise the rules below apply, e.g. chr(x) + chr(y), and finally Unsupported)
+            from .api import PROTOCOLS as _P
+
+            o = a if isinstance(a, SOpaque) else b
+            if hasattr(_P.get(o.kind), "binop"):
+                return self.task.opaque_binop(self, st, op, a, b)
         if is_num(a) and is_num(b):
             t = type(op)
             if t is ast.Add:
